@@ -28,11 +28,7 @@ Proof. exact (skip_complete D deqb dempty digest deqb_spec digest_ne). Qed.
 Theorem C02_nodeps_always_run : forall force b m s t tr ex r m' s',
   iter D deqb dempty digest force b m s t = ICont D tr ex r m' s' -> r_skipped r = true ->
   exists F, inputs_of (files D s) t = Some F /\ F <> [].
-Proof.
-  intros force b m s t tr ex r m' s' E Sk.
-  destruct (iter_skip D deqb dempty digest deqb_spec digest_ne force b m s t tr ex r m' s' E Sk) as (_ & _ & _ & _ & _ & F & A & B & _).
-  exact (ex_intro _ F (conj A B)).
-Qed.
+Proof. exact (skip_needs_inputs D deqb dempty digest deqb_spec digest_ne). Qed.
 End C02.
 Print Assumptions C02_invariant.
 Print Assumptions C02_skip_complete.
